@@ -54,10 +54,15 @@ func globMatch(pat, s string) bool {
 		}
 		return globMatch(pat[1:], s[1:])
 	}
-	// '*'
+	// '**': any balanced substring, commas allowed
+	multi := len(pat) > 1 && pat[1] == '*'
+	rest := pat[1:]
+	if multi {
+		rest = pat[2:]
+	}
 	depth := 0
 	for i := 0; ; i++ {
-		if depth == 0 && globMatch(pat[1:], s[i:]) {
+		if depth == 0 && globMatch(rest, s[i:]) {
 			return true
 		}
 		if i >= len(s) {
@@ -72,7 +77,7 @@ func globMatch(pat, s string) bool {
 				return false
 			}
 		case ',':
-			if depth == 0 && i+1 < len(s) && s[i+1] == ' ' {
+			if !multi && depth == 0 && i+1 < len(s) && s[i+1] == ' ' {
 				return false
 			}
 		}
